@@ -117,7 +117,7 @@ class PythonTypesBackend(CodeBackend):
 
         if namespace.doc is not None:
             self.emit('"""')
-            self.emit_raw(self.process_doc(namespace.doc, self._docf))
+            self.emit_raw(self._docstring_text(namespace.doc))
             self.emit('"""')
             self.emit()
 
@@ -196,6 +196,15 @@ class PythonTypesBackend(CodeBackend):
             package=self.args.package,
         )
 
+    def _docstring_text(self, doc):
+        """
+        Converts a Stone doc into text that can be placed between the triple
+        quotes of a docstring: backslashes and triple quotes in the doc must
+        not be read as escape sequences or as the end of the literal.
+        """
+        text = self.process_doc(doc, self._docf)
+        return text.replace('\\', '\\\\').replace('"""', '\\"\\"\\"')
+
     def _docf(self, tag, val):
         """
         Callback used as the handler argument to process_docs(). This converts
@@ -260,7 +269,7 @@ class PythonTypesBackend(CodeBackend):
                 self.emit('"""')
                 if annotation_type.doc:
                     self.emit_wrapped_text(
-                        self.process_doc(annotation_type.doc, self._docf))
+                        self._docstring_text(annotation_type.doc))
                     if annotation_type.has_documented_params():
                         self.emit()
                 for param in annotation_type.params:
@@ -268,7 +277,7 @@ class PythonTypesBackend(CodeBackend):
                         continue
                     self.emit_wrapped_text(':ivar {}: {}'.format(
                         fmt_var(param.name, True),
-                        self.process_doc(param.doc, self._docf)),
+                        self._docstring_text(param.doc)),
                         subsequent_prefix='    ')
                 self.emit('"""')
             self.emit()
@@ -314,7 +323,7 @@ class PythonTypesBackend(CodeBackend):
                 self.emit('"""')
                 if param.doc:
                     self.emit_wrapped_text(
-                        self.process_doc(param.doc, self._docf))
+                        self._docstring_text(param.doc))
                     # Sphinx wants an extra line between the text and the
                     # rtype declaration.
                     self.emit()
@@ -337,7 +346,7 @@ class PythonTypesBackend(CodeBackend):
                 self.emit('"""')
                 if data_type.doc:
                     self.emit_wrapped_text(
-                        self.process_doc(data_type.doc, self._docf))
+                        self._docstring_text(data_type.doc))
                     if data_type.has_documented_fields():
                         self.emit()
                 for field in data_type.fields:
@@ -350,7 +359,7 @@ class PythonTypesBackend(CodeBackend):
                     # colon produces invalid reStructuredText.
                     self.emit(':ivar {}:'.format(formatted_var))
                     self.emit_wrapped_text(
-                        self.process_doc(field.doc, self._docf), prefix='    ')
+                        self._docstring_text(field.doc), prefix='    ')
                 self.emit('"""')
             self.emit()
 
@@ -791,7 +800,7 @@ class PythonTypesBackend(CodeBackend):
             self.emit('"""')
             if data_type.doc:
                 self.emit_wrapped_text(
-                    self.process_doc(data_type.doc, self._docf))
+                    self._docstring_text(data_type.doc))
                 self.emit()
 
             self.emit_wrapped_text(
@@ -809,7 +818,7 @@ class PythonTypesBackend(CodeBackend):
                     fmt_class(data_type.name), fmt_var(field.name))
                 self.emit(':ivar {}:'.format(formatted_var))
                 self.emit_wrapped_text(
-                    self.process_doc(field.doc, self._docf), prefix='    ')
+                    self._docstring_text(field.doc), prefix='    ')
                 if not is_void_type(field.data_type):
                     self.emit(':vartype {}: {}'.format(
                         formatted_var,
@@ -958,7 +967,7 @@ class PythonTypesBackend(CodeBackend):
                     self.emit('"""')
                     if field.doc:
                         self.emit_wrapped_text(
-                            self.process_doc(field.doc, self._docf))
+                            self._docstring_text(field.doc))
                         self.emit()
                     self.emit("Only call this if :meth:`is_%s` is true." %
                               field_name)
